@@ -570,3 +570,33 @@ def _check_samples(out, full, line, tol, depth, exact_ends=False):
         if idx in kept_idx: last = idx; continue
         if abs(full[idx][2] - full[last][2]) >= tol: return f"dropped sample {idx} differs from the previously kept one by {abs(full[idx][2] - full[last][2])} >= tolerance"
     return None
+
+
+# ---------------------------------------------------------------------------------------------- C15: the job queue feeds the sender in job order (bounded)
+@bounded("C15", "job-queue-order")
+def c15_queue(tier, seed):
+    """bounded stand-in for the part of C15 that lives in gcoder.GCode (outside the functions under contract): printcore._sendnext walks the job through
+    mainqueue.has_index / idxs / all_layers; for random jobs (layer changes, z-hops, non-extruding tails) that walk must visit every line exactly once, in order"""
+    from gscrib.printrun import gcoder
+    rnd = random.Random(seed or 1)
+    n = 150 if tier == "quick" else 5000
+    bad = []
+    for i in range(n):
+        lines, z, e = [], 0.2, 0.0
+        for layer in range(rnd.randint(1, 5)):
+            if rnd.random() < 0.8: z = round(z + rnd.choice([0.2, 0.2, -0.2, 5.0]), 3); lines.append(f"G1 Z{z}")
+            for _ in range(rnd.randint(0, 4)):
+                if rnd.random() < 0.7: e = round(e + rnd.uniform(0.1, 1), 4); lines.append(f"G1 X{rnd.randint(0, 50)} Y{rnd.randint(0, 50)} E{e}")
+                else: lines.append(rnd.choice(["G0 X0 Y0", "M104 S0", "; comment", "M84", "G92 E0", "G28"]))
+        if rnd.random() < 0.6: lines += [f"G1 Z{round(z + 10, 3)}", "M104 S0", "M84"]
+        if not lines: continue
+        g = gcoder.GCode(lines)
+        walk, k = [], 0
+        while g.has_index(k):
+            l, j = g.idxs(k); walk.append(g.all_layers[l][j].raw); k += 1
+        if walk != lines:
+            bad.append({"job": lines, "walk": walk, "why": "the queue walk used by the sender does not reproduce the job line by line"}); break
+    res = {"name": "job-queue-order", "cases": n, "bounded": True, "status": "violated" if bad else "held",
+           "summary": f"{n} seeded random print jobs: walking mainqueue.has_index/idxs/all_layers (as _sendnext does) yields every job line exactly once, in order"}
+    if bad: res["replay"] = {"reproduced": True, "path": _save("C15", "job-queue", bad[0]), "witness": bad[0]}
+    return res
